@@ -295,6 +295,10 @@ def run(tier):
     # ------------------------------------------------------------------ D5 gate
     gates = [(LL + "Copyright::from_str_relaxed", "NotMachineReadable"), ("<" + LL + "Copyright as core::str::traits::FromStr>::from_str", "NotMachineReadable"),
              ("<" + LY + "Copyright as core::str::traits::FromStr>::from_str", "Not machine readable")]
+    # the file-reading constructors read the text and must pass through the same gate
+    for k in sorted(F.fns):
+        if k.startswith((LL + "Copyright::from_file", LY + "Copyright::from_file")) and "{closure" not in k:
+            gates.append((k, "achine"))
     bad_inputs = {"text starting with another field": symstr.mk([("lit", "Files: *\n"), ("atom", "rest", "text")]), "leading blank line": symstr.mk([("lit", "\nFormat: x\n")]),
                   "lower-case format": symstr.mk([("lit", "format: x\n")]), "empty": symstr.lit("")}
     for key, marker in gates:
@@ -305,8 +309,11 @@ def run(tier):
             I = hirai.Interp(F, mod)
             mod.stub = {"<deb822_lossless::lossless::Deb822 as core::str::traits::FromStr>::from_str": lambda I, a, st, n: [(OK, ("enum", OKV, (("abs", "doc"),)), st)],
                         "deb822_lossless::lossless::Deb822::from_str_relaxed": lambda I, a, st, n: [(OK, ("tuple", (("abs", "doc"), ("abs", "errs"))), st)],
-                        "core::str::<impl str>::parse": lambda I, a, st, n: [(OK, ("enum", OKV, (("abs", "doc"),)), st)]}
-            res = I.inline(f, [inp], hirai.State(depth=0))
+                        "core::str::<impl str>::parse": lambda I, a, st, n: [(OK, ("enum", OKV, (("abs", "doc"),)), st)],
+                        "deb822_lossless::lossless::Deb822::from_file": lambda I, a, st, n: [(OK, ("enum", OKV, (("abs", "doc"),)), st)],
+                        "deb822_lossless::lossless::Deb822::from_file_relaxed": lambda I, a, st, n: [(OK, ("enum", OKV, (("tuple", (("abs", "doc"), ("abs", "errs"))),)), st)],
+                        "std::fs::read_to_string": lambda I, a, st, n, inp=inp: [(OK, ("enum", OKV, (inp,)), st)]}
+            res = I.inline(f, [inp] if "from_file" not in key else [("abs", "path")], hirai.State(depth=0))
             mod.stub = {}
             ok = bool(res)
             for ctl, v, s in res:
